@@ -121,6 +121,82 @@ async def scenario(n_series, incidents):
     return None
 
 
+async def actor_scenario(n_metrics, close_at):
+    """The real ComponentMetricsResamplingActor above the Resampler: n metrics subscribed through its request channel,
+    their sources fed on the simulated clock; the source of metric 0 closes at `close_at` seconds (or never).  The
+    metrics whose sources stay healthy must keep receiving consecutive grid points, the same for all of them."""
+    import time_machine
+    from frequenz.channels import Broadcast
+    from frequenz.client.microgrid import ComponentMetricId
+    from frequenz.quantities import Quantity
+    from frequenz.sdk._internal._channels import ChannelRegistry
+    from frequenz.sdk.microgrid._data_sourcing._component_metric_request import ComponentMetricRequest
+    from frequenz.sdk.microgrid._resampling import ComponentMetricsResamplingActor
+    from frequenz.sdk.timeseries import Sample
+    from frequenz.sdk.timeseries._resampling import ResamplerConfig
+    with time_machine.travel(CREATION, tick=False) as clock:
+        registry = ChannelRegistry(name="resampling-actor")
+        ds_chan, req_chan = Broadcast(name="data-sourcing-requests"), Broadcast(name="resampling-requests")
+        ds_rx = ds_chan.new_receiver(limit=50)
+        actor = ComponentMetricsResamplingActor(channel_registry=registry, data_sourcing_request_sender=ds_chan.new_sender(),
+                                                resampling_request_receiver=req_chan.new_receiver(limit=50),
+                                                config=ResamplerConfig(resampling_period=PERIOD, align_to=ALIGN_TO))
+        actor.start()
+        reqs = [ComponentMetricRequest("ns", 100 + i, ComponentMetricId.ACTIVE_POWER, None) for i in range(n_metrics)]
+        outs = [registry.get_or_create(Sample[Quantity], r.get_channel_name()).new_receiver(limit=200) for r in reqs]
+        rtx = req_chan.new_sender()
+        for r in reqs:
+            await rtx.send(r)
+        await asyncio.sleep(0.01)
+        sources = []
+        for _ in reqs:
+            sreq = await asyncio.wait_for(ds_rx.receive(), timeout=1.0)
+            sources.append(registry.get_or_create(Sample[Quantity], sreq.get_channel_name()))
+        senders = [c.new_sender() for c in sources]
+        elapsed, closed = 0.0, False
+        while elapsed < RUN_FOR_S:
+            await asyncio.sleep(STEP)
+            clock.shift(STEP)
+            elapsed += STEP
+            now = datetime.now(timezone.utc)
+            if close_at is not None and not closed and elapsed >= close_at:
+                closed = True
+                await sources[0].close()
+            for i, tx in enumerate(senders):
+                if not (closed and i == 0):
+                    await tx.send(Sample(now, Quantity(float(i + 1))))
+        await actor.stop()
+        # read what the resampled streams carried: close each channel, then read its receiver to the end
+        from frequenz.channels import ReceiverStoppedError
+        collected = []
+        for r, rx in zip(reqs, outs):
+            await registry.get_or_create(Sample[Quantity], r.get_channel_name()).close()
+            stamps = []
+            while True:
+                try:
+                    stamps.append((await rx.receive()).timestamp)
+                except ReceiverStoppedError:
+                    break
+            collected.append(stamps)
+    ref = None
+    for i in range(n_metrics):
+        if closed and i == 0:
+            continue
+        stamps = collected[i]
+        if len(stamps) < 8:
+            return (f"metric {i} stayed healthy but its resampled stream carried only {len(stamps)} samples in {RUN_FOR_S} s "
+                    f"(source of metric 0 closed at {close_at} s)")
+        want = [stamps[0] + PERIOD * k for k in range(len(stamps))]
+        if stamps != want or (stamps[0] - ALIGN_TO) % PERIOD:
+            ks = [int((t - ALIGN_TO) / PERIOD) for t in stamps]
+            return f"metric {i}: grid indices received {ks} - not consecutive grid points"
+        if ref is None:
+            ref = stamps
+        elif stamps != ref:
+            return f"metric {i} received {len(stamps)} grid points, another healthy metric {len(ref)}: not the same timestamps"
+    return None
+
+
 def run(req):
     import async_solipsism
     logging.disable(logging.CRITICAL)
@@ -151,12 +227,27 @@ def run(req):
         if f:
             failure = (f, {"series": n_series, "incidents (at s, kind, series)": [list(i) for i in incidents]})
             break
+    for n_metrics, close_at in ((2, None), (2, 7.0), (3, 10.5)):
+        if failure:
+            break
+        evaluations += 1
+        try:
+            loop = async_solipsism.EventLoop()
+            try:
+                f = loop.run_until_complete(actor_scenario(n_metrics, close_at))
+            finally:
+                loop.close()
+        except Exception as e:  # pylint: disable=broad-except
+            f = f"actor scenario raised {type(e).__name__}: {e}"
+        if f:
+            failure = (f, {"actor": "ComponentMetricsResamplingActor", "metrics": n_metrics, "source_of_metric_0_closes_at_s": close_at})
     logging.disable(logging.NOTSET)
     out = {"status": "failed" if failure else "ok", "evaluations": evaluations, "distinct": evaluations, "known": {},
            "samples": samples, "wall_s": round(time.time() - t0, 1), "exhaustive": failure is None,
            "rule": "2-3 series on a simulated clock (period 2 s, align_to off the creation time), 24 s each: no incident; one source "
                    "closing (first / last series) at 3 moments with the caller removing it and resampling on; samples without a "
-                   "value; a duplicate registration of a running source; combinations of two incidents; all distinct"}
+                   "value; a duplicate registration of a running source; combinations of two incidents; then the real ComponentMetricsResamplingActor "
+                   "with 2-3 metrics, one source closing never / at 7 s / at 10.5 s; all distinct"}
     if failure:
         out["failure"] = {"clause": "healthy series keep receiving the same consecutive grid points", "detail": failure[0]}
         out["inputs"] = failure[1]
